@@ -255,6 +255,22 @@ theorem allIF_of_all (exts : Array Ext) (nbF : Nat)
   have := h e (List.mem_iff_getElem?.mpr ⟨j, by simpa using he⟩)
   exact ⟨this.1, this.2.1, this.2.2.1, this.2.2.2⟩
 
+/-- `nb_repeated = repeat_count*(nb_frames - (f + 1))` and `written + nb_repeated` (extensions.c:588-589): with
+    `w` extensions written before frame `f`, `a` the queue of frame `f`, `later` the queues of the later frames and
+    `w + |a| + Σ|later| = nb_extensions`, the products and sums are at most `nb_extensions` (each repeated
+    extension is a distinct, not yet written array entry). -/
+theorem repeat_count_le (a : List Ext) (later : List (List Ext)) (w n : Nat) (h : w + a.length + total later = n) :
+    blockR a later ≤ a.length ∧ blockR a later * later.length ≤ n ∧
+    w + blockR a later + blockR a later * later.length ≤ n := by
+  by_cases h0 : 0 < blockR a later
+  · obtain ⟨_, hr⟩ := blockR_pos h0
+    obtain ⟨h1, h2⟩ := repCount_spec a later
+    rw [← hr] at h1 h2
+    have := total_map_drop (blockR a later) later (fun r hr => (h2 r hr).1)
+    omega
+  · have : blockR a later = 0 := by omega
+    rw [this]; omega
+
 /-! ### The full round trip -/
 
 theorem toExt_frame (bs : Bytes) (r : ExtRef) : (ExtRef.toExt bs r).frame.toNat = r.frame := by
